@@ -48,16 +48,23 @@ class SQLGenerator:
         Returns:
             DATE_TRUNC SQL expression appropriate for the dialect
         """
-        # Handle {model} placeholder or complex expressions - fall back to string
-        if "{" in column_expr or "(" in column_expr:
+        # Handle {model} placeholder or complex expressions - fall back to string.
+        # An expression without parentheses (e.g. "created_at + INTERVAL 90 MINUTE") is not a
+        # column reference either.
+        col = None
+        if "{" not in column_expr and "(" not in column_expr:
+            try:
+                # Parse the column expression to handle table.column references
+                col = sqlglot.parse_one(column_expr, into=exp.Column, dialect=self.dialect)
+            except sqlglot.errors.ParseError:
+                col = None
+        if col is None:
             # BigQuery: DATE_TRUNC(col, MONTH), others: DATE_TRUNC('month', col)
             if self.dialect == "bigquery":
                 return f"DATE_TRUNC({column_expr}, {granularity.upper()})"
             else:
                 return f"DATE_TRUNC('{granularity}', {column_expr})"
 
-        # Parse the column expression to handle table.column references
-        col = sqlglot.parse_one(column_expr, into=exp.Column, dialect=self.dialect)
         date_trunc = exp.DateTrunc(this=col, unit=exp.Literal.string(granularity))
         return date_trunc.sql(dialect=self.dialect)
 
